@@ -276,6 +276,18 @@ def validate_file(trace_file, wd):
     states, generated)."""
     with open(trace_file) as f:
         lines = [l.rstrip("\n") for l in f if l.strip()]
+    # a harness process that crashed (which is reported separately) leaves a truncated file: keep complete runs
+    good = []
+    for l in lines:
+        try:
+            json.loads(l)
+            good.append(l)
+        except Exception:
+            break
+    runs0 = split_runs(good)
+    if runs0 and '"e":"end"' not in good[-1]:
+        good = good[:runs0[-1][0]]
+    lines = good
     res = {"accepted": 0, "rejected": [], "states": 0, "generated": 0, "events": len(lines)}
     base = os.path.basename(trace_file)
     cur = lines
